@@ -23,8 +23,10 @@ def swap_roles(p):
     return [p[0], p[1], p[3], p[2], p[6], p[7], p[4], p[5]]
 
 
-def oracle(cls, ops, nqubit, real):
-    """the statement of C08 on the recorded calls / placements of one run; returns list of failure texts"""
+def oracle(cls, ops, nqubit, real, dp=None):
+    """the statement of C08 on the recorded calls / placements of one run; returns list of failure texts.
+    dp: the run used these (untagged, numeric) device parameters - the recorded raw arguments are compared with the numbers the
+    role table names"""
     if "err" in real:
         return [f"valid circuit raised {real['err']}: {real.get('msg', '')}"]
     used = []
@@ -44,7 +46,7 @@ def oracle(cls, ops, nqubit, real):
         bad.append(f"the simulator orders the used qubits as {real['layout']}; ascending physical order is {layout} "
                    f"(tensor factors of psi0 and the rows of the layered classes are in ascending order)")
     data = [op for op in ops if op[0] in ("sx", "x", "cx", "ecr", "delay") and all(q in used for q in ([op[1], op[2]] if op[0] in ("cx", "ecr") else [op[1]]))]
-    calls = real["calls"]
+    calls = [dict(c, raw=r) for c, r in zip(real["calls"], real.get("raw") or [None] * len(real["calls"]))]
     body = [c for c in calls if c["m"] != "bitflip"]
     flips = [c for c in calls if c["m"] == "bitflip"]
     if len(body) != len(data):
@@ -69,11 +71,20 @@ def oracle(cls, ops, nqubit, real):
             slots = (min(pos[c_], pos[t_]), max(pos[c_], pos[t_]))
         if c["m"] != exp_m:
             bad.append(f"operation {k} {op}: gate-set method {c['m']}, expected {exp_m}")
+        elif dp is not None:
+            want = [W.value_of(t, dp) for t in exp_p]
+            if c["raw"] != want:
+                j = next(i for i, (a, b) in enumerate(zip(c["raw"], want)) if a != b) if len(c["raw"]) == len(want) else 0
+                bad.append(f"operation {k} {op} on layout {layout}: {c['m']} received {c['raw'][j] if j < len(c['raw']) else None!r} as argument {j} "
+                           f"where {exp_p[j]} = {want[j]!r} is the calibration value of its own qubits (tables with exact zeros)")
         elif c["pars"] != exp_p:
             bad.append(f"operation {k} {op} on layout {layout}: {c['m']} was called with {c['pars']}, its own qubits' values in role order are {exp_p}")
         want_slots.append(slots)
     expf = [[f"tm[{q}]", f"rout[{q}]"] for q in layout][:nqubit]
-    if [c["pars"] for c in flips] != expf:
+    if dp is not None:
+        if [c["raw"] for c in flips] != [[W.value_of(t, dp) for t in e] for e in expf]:
+            bad.append(f"readout bit-flips received {[c['raw'] for c in flips]}, the qubits' own (tm, rout) are {[[W.value_of(t, dp) for t in e] for e in expf]}")
+    elif [c["pars"] for c in flips] != expf:
         bad.append(f"readout bit-flips were called with {[c['pars'] for c in flips]}, expected {expf}")
     # placements
     st = real["state"]
@@ -219,6 +230,40 @@ def main(ctx):
         d = W.compare_run(r, m, cls)
         if d:
             mism.append((cls, ops, n, d))
+    # numeric calibration tables with exact zeros (the tagged tables above have none): the recorded raw arguments must be the
+    # numbers of the operation's own qubits, a zero included
+    nz = 0
+    for cls in CLASSES:
+        for _ in range(40 if ctx.thorough else 8):
+            n = ctx.rng.randint(1, 4)
+            ops, labels = W.random_ops(ctx.rng, cls, n, ctx.rng.randint(2, 12))
+            dp = W.numeric_params_with_zeros(ctx.rng, max(labels))
+            r = W.observe_run(cls, ops, n, device_param=dp)
+            ctx.count(); nz += 1
+            bad = oracle(cls, ops, n, r, dp=dp)
+            if bad:
+                fails.append((cls, ops, n, bad + [{"device_param": {k: np.asarray(v).tolist() for k, v in dp.items() if k != "metadata"}}]))
+    cov["runs_with_numeric_tables_holding_exact_zeros"] = nz
+    # circuit objects used directly and reused after reset(): every operation after a reset is sampled with the phases a newly
+    # constructed object would have (histories of build calls / evaluations / resets, the vocabulary of C11's check)
+    from props import c11 as H11
+    nh = 0
+    for cls in CLASSES:
+        for _ in range(30 if ctx.thorough else 8):
+            n, depth = ctx.rng.randint(1, 4), ctx.rng.randint(1, 4)
+            hist = H11.random_history(ctx.rng, cls, n, ctx.rng.randint(4, 16))
+            if hist.count("reset") < 2:
+                k1, k2 = sorted(ctx.rng.sample(range(1, len(hist) + 1), 2)) if len(hist) >= 2 else (1, 1)
+                hist = hist[:k1] + ["reset"] + hist[k1:k2] + ["reset"] + hist[k2:]
+            snaps, raised, bad, circ = H11.run_history(cls, n, depth, hist, np.eye(1, 2 ** n)[0].astype(complex))
+            ctx.count(); nh += 1
+            if raised is None and snaps and not bad:
+                b2 = H11.fresh_suffix_check(cls, n, depth, hist, snaps[-1])
+                if b2 and "phi" in b2:
+                    fails.append((cls, hist, None, [f"circuit object used directly, history of {len(hist)} operations with {hist.count('reset')} resets: {b2} "
+                                                    f"- operations after the reset are sampled with stale virtual phases",
+                                                    {"history": {"n": n, "depth": depth}}]))
+    cov["direct_histories_with_resets"] = nh
     # relabelling and marginals
     for _ in range(30 if ctx.thorough else 8):
         ops, ops2, bad = relabel_check(ctx.rng, ctx.rng.randint(2, 4)); ctx.count()
@@ -269,9 +314,21 @@ def main(ctx):
 
 def replay(ctx, path):
     rp = json.load(open(path))["replay"]
+    extra = next((x for x in rp.get("failure", []) if isinstance(x, dict)), {})
+    if "history" in extra:
+        from props import c11 as H11
+        n, depth, hist = extra["history"]["n"], extra["history"]["depth"], rp["ops"]
+        snaps, raised, bad, circ = H11.run_history(rp["cls"], n, depth, hist, np.eye(1, 2 ** n)[0].astype(complex))
+        b2 = H11.fresh_suffix_check(rp["cls"], n, depth, hist, snaps[-1]) if (raised is None and snaps) else None
+        print(rp["cls"], "history", json.dumps(hist)); print("oracle:", b2 or "holds")
+        return 1 if b2 else 0
     if "ops" not in rp or rp.get("nqubit") is None:
         print("replay without a single-run input:", json.dumps(rp)[:500]); return 1
-    r = W.observe_run(rp["cls"], rp["ops"], rp["nqubit"])
-    bad = oracle(rp["cls"], rp["ops"], rp["nqubit"], r)
+    dp = None
+    if "device_param" in extra:
+        dp = {k: (np.array(v) if k != "dt" else v) for k, v in extra["device_param"].items()}
+        dp["metadata"] = {}
+    r = W.observe_run(rp["cls"], rp["ops"], rp["nqubit"], device_param=dp)
+    bad = oracle(rp["cls"], rp["ops"], rp["nqubit"], r, dp=dp)
     print(rp["cls"], rp["ops"]); print("oracle:", bad or "holds")
     return 1 if bad else 0
